@@ -81,7 +81,9 @@ struct vh_event {
   unsigned char arg[8];     /* integer / length / float bits, big endian */
   int arglen;               /* number of valid bytes in arg (0 for no-arg callbacks) */
   const unsigned char* data; /* payload pointer for string callbacks */
+  int ctx_bad;              /* a callback received a context other than the one given to cbor_stream_decode */
 };
+#define VH_CTX ((void*)&vh_ev) /* the context pointer the harnesses hand to cbor_stream_decode */
 extern struct vh_event vh_ev;
 extern const struct cbor_callbacks vh_recording_callbacks;
 void vh_ev_clear(void);
